@@ -6,7 +6,7 @@ from mcx import cli
 PID = 'C20'
 CHUNK = 8
 TOLERANCE = 'exactly one of: complete report with finite numbers / return 23 with one diagnostic line and no report / usage error of the option parser'
-RULE = ('Deviation-bounded exploration from 4 valid base command lines (wire dipole with far field; two grounded wires over '
+RULE = ('Deviation-bounded exploration from 5 valid base command lines (wire dipole with far field; a tapered 10-segment wire; two grounded wires over '
         'two media with radials and a load; arc + helix + tapered wire with transformations, skin effect and near field; '
         'loaded three-wire structure with RLC/trap/Laplace loads, sweep and V/m table): the base, EVERY single deviation '
         '(thorough: every pair) from a menu of ~330 (option, value) entries covering each documented option with zero, '
@@ -27,15 +27,18 @@ BASES = {
     'geo': ['-f', '30', '-a', '1,4,1,0,90,.002', '-H', '2,8,1,0.5,.002,.3,.3', '-w', '3,3,1,0,0,2,0.5,0.3,.002', '--geo-rotate=1,10,20,30,1',
             '--geo-translate=2,0,0,3,2', '--geo-scale=0.5', '--excitation-pulse=2,1', '--near-field=1,1,1,.5,.5,.5,2,1,2', '--skin-effect-conductivity=1e6',
             '--taper-wire=3,1'],
+    'tap': ['-f', '30', '-w', '10,0,0,0,0,0,1,0.001', '-w', '4,0,0,1,0.3,0.2,1.2,0.001', '--excitation-pulse=3', '--taper-wire=1,1', '--theta=0,45,3', '--phi=0,90,2'],
     'lds': ['-f', '21.3', '-w', '4,0,0,1,0.5,0.8,2,0.001', '-w', '5,0.5,0.8,2,2,0.5,2.6,0.002', '-w', '3,2,0.5,2.6,2.5,2,2,0.001', '--excitation-pulse=2',
             '--rlc-load=5,2e-6,30e-12', '--attach-load=1,4', '--trap-load=2,1e-6,50e-12', '--attach-load=2,6', '--laplace-load-a=1,2e-9', '--laplace-load-b=10,3e-6',
             '--attach-load=3,all,3', '--frequency-increment=1', '--frequency-steps=2', '--option=far-field-absolute', '--ff-distance=100', '--theta=10,35,2', '--phi=0,90,2'],
 }
 
 
-def vclass(v):
+def vclass(v, opt=None):
     if v is None:
         return 'flag'
+    if opt == '--taper-wire':
+        return v          # small menu with value-specific behaviour: the literal value identifies the case
     if v == '':
         return 'empty'
     parts = v.split(',')
@@ -88,7 +91,7 @@ def menu():
                '8,1,inf,.001,.3,.3', '2,1,.5,.001,.3,.3', '8,-1,-.5,.001,.3,.3', '8,1,1e-300,.001,.3,.3', '8,1,.5,.001,-.3,.3'])
     add('--excitation-pulse', ['0', '-1', '999', '1,99', '99,1', '1,2,3', 'a', '1,', '', '1.5'])
     add('--excitation-voltage', ['0', 'nan', 'inf', '1e300', '1e-300', 'nanj', '1+infj', 'x'])
-    add('--load', ['0', 'inf', 'nan', '-50', '1e300', 'nanj'])
+    add('--load', ['0', 'inf', 'nan', '-50', '1e300', 'nanj', '-5000', '-5000+3j'])
     add('--attach-load', ['0,1', '99,1', '1,0', '1,999', '1,all', '1,all,99', '1,1,99', '1,-1', '1,1,1', '2,1', '1', 'x,1', '1,all,all'])
     for o in ('--rlc-load', '--trap-load'):
         add(o, [',,', '0,0,0', 'nan,0,0', '1,1', '1,1,1,1', '0,0,1e-12', 'inf,0,0', '0,inf,0', '0,0,inf', '-1,-1,-1', 'a,b,c', '5,1e-6,30e-12'])
@@ -113,7 +116,7 @@ def menu():
         add(o, ['1,nan,0,0', '1,inf,0,0', '1,0,0,0,99', 'nan,0,0,1', '1,1e300,0,0', '1,0,0', '1,0,0,0,1,1', 'a,0,0,0', '1,0,0,-100', '1,0,0,0,x'])
     add('--geo-scale', ['0', '-1', 'nan', 'inf', '1e300', '1e-300', '2,99', '2,a', '1,2,3'])
     add('--taper-wire', ['99,1', '1,0', '1,4', '1,1,-1', '1,1,5', '1,1,1,0.5', '1,1,nan', '1,1,0,nan', '1,3,1e-9,1e9', '1,1,inf', '1', '1,1,1,1,1', '1,2', '1,3',
-                         '3,1,0.5', '3,2,0,0.01', 'x,1'])
+                         '3,1,0.5', '3,2,0,0.01', 'x,1', '1,1,0,0', '1,3,0,0', '1,2,0.1,0', '1,1,0,0.75', '1,2,0,0.75', '1,3,0,0.75', '1,1,0.2,0.3', '1,1,0,0.9', '1,1,0,1.5', '1,2,0,3.5', '1,1,0,4.9', '1,3,0,1.5', '1,1,0.5,1.5'])
     add('--option', ['far-field', 'near-field', 'far-field-absolute', 'none', 'bogus'])
     for o in ('--output-basic-input', '--output-cmdline'):
         add(o, ['/nonexistent/dir/x', os.path.join(TMP, 'o.txt'), ''])
@@ -260,12 +263,17 @@ def evaluate(c):
                 if c1[:2] == cls[:2]:
                     attributed = (opt, val)
                     break
-        if not devs:
+        sweep = any(a.startswith('--frequency-steps') and a.split('=')[1] not in ('0', '1') for a in argv) and \
+            any(a.startswith('--frequency-increment') for a in argv)
+        if cls[0] == 'DIAG+REPORT' and sweep:
+            # call site: a diagnostic issued in a later step of a frequency sweep, after earlier steps were printed
+            sig = 'DIAG+REPORT:later-sweep-step'
+        elif not devs:
             sig = '%s:%s/base' % (cls[0], cls[1])
         elif attributed:
-            sig = '%s:%s/%s=%s' % (cls[0], cls[1], attributed[0], vclass(attributed[1]))
+            sig = '%s:%s/%s=%s' % (cls[0], cls[1], attributed[0], vclass(attributed[1], attributed[0]))
         else:
-            sig = '%s:%s/%s' % (cls[0], cls[1], '&'.join('%s=%s' % (o, vclass(v)) for o, v in sorted(devs, key=lambda d: d[0])))
+            sig = '%s:%s/%s' % (cls[0], cls[1], '&'.join('%s=%s' % (o, vclass(v, o)) for o, v in sorted(devs, key=lambda d: d[0])))
         viol.append((sig, '%s -> %s %s %s' % (label, cls[0], cls[1], cls[2])))
     return dict(viol=viol, canon=label, nontriv=bool(devs), outcome=cls[0], dev=0.0)
 
